@@ -127,6 +127,23 @@ func c10Cases(tier string) []*space.Case {
 				}
 			}
 		}
+		// B2. spellings of validators / plan modifiers: qualified call, call with a string argument holding
+		// dots, brackets, stars, quotes, commas and parentheses, a variable and a function of the target
+		// package itself (unqualified, as in the README)
+		{
+			vforms := []string{v(1), `verif/tfx.VS("a.b")`, `verif/tfx.VS("^[a-z]*$")`, "LocalValidator", "LocalV(5)", `verif/tfx.VS("say \"hi\", (twice)")`, `verif/tfx.VS("[]*string")`}
+			pforms := []string{pm(1), `verif/tfx.PMS("x.y[0]")`, "LocalModifier", "LocalPM(6)", `verif/tfx.PMS("*")`}
+			for form, keys := range map[string][]string{"path": paths, "typekey": tkeys} {
+				f, c := b.mk()
+				c.Validators = map[string][]string{}
+				c.PlanModifiers = map[string][]string{}
+				for i, k := range keys {
+					c.Validators[k] = []string{vforms[i%len(vforms)], vforms[(i+3)%len(vforms)]}
+					c.PlanModifiers[k] = []string{pforms[i%len(pforms)]}
+				}
+				add(b.name, "forms/"+form, f, c)
+			}
+		}
 		// C. injected fields on the root and on nested paths
 		{
 			st := "github.com/hashicorp/terraform-plugin-framework/types.StringType"
